@@ -215,3 +215,32 @@ package utils
 //@   ensures [reject] implies(value <= 0, result1 != nil)
 //@   safe
 //@ end
+
+// ---- utils.Buffer (chunked byte buffer of the open block): frame only --------
+// ASSUMED: appending touches only the buffer object and byte contents; the
+// functional view (Append extends the byte sequence by exactly `data`) is
+// listed as Tier 2 in DESIGN.md and is not verified here.
+//@ func (*Buffer).Append
+//@   assumed
+//@   modifies b.chunks, b.offset, allbytes
+//@ end
+//@ func (*Buffer).AppendUint16LittleEndian
+//@   assumed
+//@   modifies b.chunks, b.offset, allbytes
+//@ end
+//@ func (*Buffer).AppendUint32LittleEndian
+//@   assumed
+//@   modifies b.chunks, b.offset, allbytes
+//@ end
+//@ func (*Buffer).AppendUint64LittleEndian
+//@   assumed
+//@   modifies b.chunks, b.offset, allbytes
+//@ end
+//@ func (*Buffer).AppendInt64LittleEndian
+//@   assumed
+//@   modifies b.chunks, b.offset, allbytes
+//@ end
+//@ func (*Buffer).AppendFloat64LittleEndian
+//@   assumed
+//@   modifies b.chunks, b.offset, allbytes
+//@ end
